@@ -738,6 +738,48 @@ func main() {
 			}
 		}
 	}
+	// tile-type -> required extension switch of getTileAttempt; the status literals it returns
+	var extRows []string
+	if gta := funcDecl(fsrv, "getTileAttempt"); gta != nil {
+		ast.Inspect(gta.Body, func(n ast.Node) bool {
+			sw, ok := n.(*ast.SwitchStmt)
+			if !ok {
+				return true
+			}
+			if f, isF := sw.Tag.(*ast.SelectorExpr); !isF || f.Sel.Name != "TileType" {
+				return true
+			}
+			for _, c := range sw.Body.List {
+				cc := c.(*ast.CaseClause)
+				okc := false
+				if len(cc.List) == 1 && len(cc.Body) == 1 {
+					if is, isIf := cc.Body[0].(*ast.IfStmt); isIf {
+						if b, isB := is.Cond.(*ast.BinaryExpr); isB && b.Op == token.NEQ {
+							if id, isI := b.X.(*ast.Ident); isI && id.Name == "ext" {
+								if lit, okl := strLit(b.Y); okl && len(is.Body.List) == 1 {
+									if r, isR := is.Body.List[0].(*ast.ReturnStmt); isR && len(r.Results) > 0 {
+										if st, oks := evalInt(r.Results[0]); oks {
+											extRows = append(extRows, fmt.Sprintf("(%s, \"%s\"%%string, %d)", litText(cc.List[0]), lit, st))
+											okc = true
+										}
+									}
+								}
+							}
+						}
+					}
+				}
+				if !okc {
+					gap("getTileAttempt: case of the tile-type/extension switch not understood")
+				}
+			}
+			return false
+		})
+	}
+	if len(extRows) == 0 {
+		gap("getTileAttempt: tile-type/extension switch not found")
+	}
+	fmt.Fprintf(&sb, "Definition ext_table := [%s].\n", strings.Join(extRows, "; "))
+
 	// optimizeDirectories constants
 	od := funcDecl(fdir, "optimizeDirectories")
 	var ints []int64
